@@ -261,3 +261,67 @@ func (c *Ctx) ruleStrictDec(rule string) {
 	}
 	c.R.Note("%s: %d CBOR decoding calls in methods of the client", rule, n)
 }
+
+// R-ONEDECODER (C05 "transport chunkings", C06 "a result that has been delivered"): a CBOR stream decoder reads ahead.
+// Two decoders on the same byte stream lose whatever the first one had buffered when the second takes over, and two
+// used concurrently tear each other's messages. Every NewDecoder call in the methods of the client is an obligation:
+// it must be the one in the constructor (the function that allocates the client); any other creates a second reader
+// on the stream.
+func (c *Ctx) ruleOneDecoder(rule string) {
+	ro := c.roles()
+	if ro == nil || !ro.ok || ro.clientT == nil {
+		c.R.Unresolved(rule, "ATP client type")
+		return
+	}
+	n := 0
+	for _, fn := range c.M.SortedFuncs(c.scopePkg("atp")) {
+		root := fn
+		for root.Parent() != nil {
+			root = root.Parent()
+		}
+		isMethod := c.isMethodOf(root, ro.clientT)
+		allocates := false
+		for _, b := range root.Blocks {
+			for _, in := range b.Instrs {
+				if al, ok := in.(*ssa.Alloc); ok && al.Heap {
+					if n := structOf(al.Type()); n != nil && n == ro.clientT {
+						allocates = true
+					}
+				}
+			}
+		}
+		if !isMethod && !allocates {
+			continue
+		}
+		cnt := 0
+		for _, b := range fn.Blocks {
+			for _, in := range b.Instrs {
+				call, ok := in.(*ssa.Call)
+				if !ok {
+					continue
+				}
+				isNew := false
+				if call.Call.IsInvoke() {
+					isNew = call.Call.Method.Name() == "NewDecoder" && isCborPkg(call.Call.Method.Pkg())
+				} else {
+					isNew = strings.HasSuffix(core.StaticCalleeName(&call.Call), "cbor/v2.NewDecoder")
+				}
+				if !isNew {
+					continue
+				}
+				n++
+				cnt++
+				k := key(rule, c.M.Key(fn), sprintf("NewDecoder #%d", cnt))
+				if allocates && !isMethod {
+					c.R.Ok(rule, k, c.M.InstrPos(call), "stream decoder creation", "in the constructor: the client's one decoder")
+				} else {
+					c.R.Bad(rule, k, c.M.InstrPos(call), "a second stream decoder is created on the client's channel",
+						"stream decoders read ahead: bytes the previous decoder buffered past the last message are lost when this one takes over (the next message is read from its middle: 'cannot unmarshal ...' or a hang), and concurrent use tears messages")
+				}
+			}
+		}
+	}
+	if n == 0 {
+		c.R.Unresolved(rule, "NewDecoder call in the client constructor")
+	}
+}
